@@ -429,6 +429,106 @@ func judgeHistoRows(s *Spec, a *Agg, body string) *finding {
 	return nil
 }
 
+// judgeBarsRows: same idea for `bars` (the bar graph has no row limit): plain keys and sub-keys; after the legend line
+// every key owns one line per sub-key (grouped) or one line (stacked), and the last cell of each line is the value /
+// the key's total. The bars themselves are C14's business; this reads back which number stands next to which key.
+func barsRowsApplicable(s *Spec, a *Agg) bool {
+	if s.Cmd != "bars" || len(a.bkey) == 0 || !allPlain(sortedKeys(a.bkey)) {
+		return false
+	}
+	subs := sortedKeys(a.bsub)
+	if len(subs) == 1 && subs[0] == "" {
+		return true
+	}
+	return len(subs) > 0 && allPlain(subs)
+}
+
+func judgeBarsRows(s *Spec, a *Agg, body string) *finding {
+	if !barsRowsApplicable(s, a) {
+		return nil
+	}
+	bad := func(f string, args ...any) *finding {
+		return &finding{"snapshot-vs-reference", fmt.Sprintf(f, args...) + "; screen " + run.Q(body)}
+	}
+	lines := strings.Split(strings.TrimSuffix(body, "\n"), "\n")
+	lines = lines[:len(lines)-1] // summary
+	subs := sortedKeys(a.bsub)
+	if !(len(subs) == 1 && subs[0] == "") {
+		if len(lines) == 0 {
+			return bad("bar graph screen has no legend line")
+		}
+		leg := strings.Fields(lines[0])
+		j := 0
+		for _, f := range leg {
+			if j < len(subs) && f == subs[j] {
+				j++
+			}
+		}
+		if j != len(subs) {
+			return bad("legend %s does not list the sub-keys %q in order", run.Q(lines[0]), subs)
+		}
+		lines = lines[1:]
+	}
+	per := len(subs)
+	if s.Stacked {
+		per = 1
+	}
+	seen := map[string]bool{}
+	for i := 0; i < len(lines); {
+		ln := lines[i]
+		f := strings.Fields(ln)
+		if len(f) == 0 {
+			i++
+			continue
+		}
+		if ln[0] == ' ' || len(f) < 2 {
+			return bad("line %s is neither a key line nor inside a key's block", run.Q(ln))
+		}
+		key := f[0]
+		if seen[key] {
+			return bad("key %s is on the bar graph twice", run.Q(key))
+		}
+		seen[key] = true
+		if !a.bkey[key] {
+			return bad("bar graph shows key %s that no input line produced", run.Q(key))
+		}
+		vals := []string{f[len(f)-1]}
+		for k := 1; k < per; k++ {
+			if i+k >= len(lines) || len(lines[i+k]) == 0 || lines[i+k][0] != ' ' {
+				return bad("key %s has %d lines, expected one per sub-key (%d)", run.Q(key), k, per)
+			}
+			g := strings.Fields(lines[i+k])
+			if len(g) == 0 {
+				return bad("key %s: empty line inside its block", run.Q(key))
+			}
+			vals = append(vals, g[len(g)-1])
+		}
+		i += per
+		if s.Stacked {
+			var tot int64
+			for _, sk := range subs {
+				tot += a.bars[[2]string{key, sk}]
+			}
+			if strings.ReplaceAll(vals[0], ",", "") != strconv.FormatInt(tot, 10) {
+				return bad("stacked bar of %s is labelled %s, reference total %d", run.Q(key), vals[0], tot)
+			}
+			continue
+		}
+		for k, sk := range subs {
+			w := a.bars[[2]string{key, sk}]
+			if strings.ReplaceAll(vals[k], ",", "") != strconv.FormatInt(w, 10) {
+				return bad("bar (%s, %s) is labelled %s, reference %d", run.Q(key), run.Q(sk), vals[k], w)
+			}
+		}
+	}
+	for _, k := range sortedKeys(a.bkey) {
+		if !seen[k] {
+			return bad("key %s is missing from the bar graph", run.Q(k))
+		}
+	}
+	return nil
+}
+
 // judgeTableGrid: same idea for `table`: plain keys, everything fits (--num / --cols),
 // then header + rows (+ totals) must hold exactly the reference cells.
 func tableGridApplicable(s *Spec, a *Agg) bool {
